@@ -1,3 +1,5 @@
 #!/bin/sh
-# placeholder; replaced when the framework is built
-exit 0
+# MANIFEST.setup_cmd: build shim + driver + first build of truth-core (offline, from files on disk only)
+set -e
+cd "$(dirname "$0")"
+./check build-only
